@@ -135,34 +135,26 @@ Definition py_mean (l : list Q) : option Q := match l with [] => None | _ => Som
 Definition py_median_o (l : list Q) : option Q := match l with [] => None | _ => Some (py_median l) end.
 Definition py_mode_o (l : list Q) : option Q := most_common1 (counter l).
 
-Definition py_grouped_num (m : imethod) (keys : list key) (values : col) : col :=
+Definition py_grouped (m : imethod) (keys : list key) (values : col) : col :=
   let groups := map snd (build_groups keys) in
   let non_null := vals values in
   match m with
   | IConst k => py_impute_constant k values
+  (* overall_mean / overall_median / overall_mode are each computed only for the method that uses them
+     (`... if non_null_values and imputation_method == "mean" else None`) *)
   | IMean => fold_left (fun r idxs => group_stat py_mean (py_mean non_null) idxs r) groups values
   | IMedian => fold_left (fun r idxs => group_stat py_median_o (py_median_o non_null) idxs r) groups values
   | IMode => fold_left (fun r idxs => group_stat py_mode_o (py_mode_o non_null) idxs r) groups values
   | IFfill => fold_left (fun r idxs => group_ffill None idxs r) groups values
   | IBfill => fold_left (fun r idxs => group_ffill None (rev idxs) r) groups values
   end.
-(* `overall_mean = statistics.mean(non_null_values) if non_null_values else None` (and median) is computed BEFORE the
-   method is looked at: on a column of strings with a non-null cell every grouped method except `constant` raises
-   (None).  numeric = the column holds numbers. *)
-Definition py_grouped (numeric : bool) (m : imethod) (keys : list key) (values : col) : option col :=
-  match m with
-  | IConst k => Some (py_impute_constant k values)
-  | _ => match numeric, vals values with
-         | false, _ :: _ => None                 (* statistics.mean(["a", ...]) raises *)
-         | _, _ => Some (py_grouped_num m keys values)
-         end
-  end.
 
-(* _perform_imputation, one source column: `grouped` = Some keys when group_by_features is a non-empty list *)
+(* _perform_imputation, one source column: `grouped` = Some keys when group_by_features is a non-empty list / tuple.
+   (mean / median of a column of strings raise in `statistics`; such requests are not modelled.) *)
 Definition has_null (values : col) : bool := existsb (fun x => match x with None => true | Some _ => false end) values.
-Definition py_perform_imputation (numeric : bool) (m : imethod) (grouped : option (list key)) (values : col) : option col :=
-  if negb (has_null values) then Some values
+Definition py_perform_imputation (m : imethod) (grouped : option (list key)) (values : col) : col :=
+  if negb (has_null values) then values
   else match grouped with
-       | Some keys => py_grouped numeric m keys values
-       | None => Some (py_impute m values)
+       | Some keys => py_grouped m keys values
+       | None => py_impute m values
        end.
